@@ -130,22 +130,39 @@ def base_line(sc, exc, m):
                 above1_e6=cap(max(0.0, m - 1.0) * 1e6) if fin else 0)
 
 
-def eval_index_scenario(job):
-    """Run one scenario class (worker process).  Returns (sid, salt, lines, values, evaluations, seconds)."""
-    sc, salt, only_base = job
+def index_units(sc, salt, only_base):
+    """The single-evaluation jobs of one scenario class: (scenario, salt, key), key = "base" | (r_i, relation, axis)."""
+    units = [(sc, salt, "base")]
+    for r_i, rel in enumerate([] if only_base else sc["relations"]):
+        for axis in (sc["axes"] if rel.startswith("twofold") else ["-"]):
+            units.append((sc, salt, (r_i, rel, axis)))
+    return units
+
+
+def eval_unit(job):
+    """One evaluation of the real function (worker process).  Returns (sid, salt, key, exc, value, seconds)."""
+    sc, salt, key = job
     t0 = time.time()
+    if sc["kind"] == "theory":
+        line, out = eval_theory_scenario(sc)
+        return sc["sid"], salt, key, line, out, time.time() - t0
     o = texture(sc["texture"], sc["n"], _rng(sc, salt, 0))
+    if key != "base":
+        r_i, rel, axis = key
+        o = transformed(o, rel, axis, _rng(sc, salt, 1 + 10 * r_i))  # same subset of grains for every axis
     exc, m = call_index(o, sc["system"])
-    lines = [base_line(sc, exc, m)]
-    values = {"base": m}
-    evals = 1
+    return sc["sid"], salt, key, exc, m, time.time() - t0
+
+
+def assemble(sc, got, only_base=False):
+    """Trace lines and raw values of one scenario from its unit results got[key] = (exc, value)."""
+    exc, m = got["base"]
+    lines, values = [base_line(sc, exc, m)], {"base": m}
     for r_i, rel in enumerate([] if only_base else sc["relations"]):
         axes = sc["axes"] if rel.startswith("twofold") else ["-"]
         diffs, excs, fin = [], [], True
-        for a_i, axis in enumerate(axes):
-            o2 = transformed(o, rel, axis, _rng(sc, salt, 1 + 10 * r_i))  # same subset for every axis
-            e2, m2 = call_index(o2, sc["system"])
-            evals += 1
+        for axis in axes:
+            e2, m2 = got[(r_i, rel, axis)]
             excs.append(e2)
             ok = e2 == "None" and np.isfinite(m2)
             fin = fin and ok
@@ -153,12 +170,10 @@ def eval_index_scenario(job):
             values[f"{rel}:{axis}"] = m2
         lines.append(dict(ev="pair", transform=rel, axes=list(axes), exc=next((e for e in excs if e != "None"), "None"),
                           finite=bool(fin), diffs_e9=diffs))
-    return sc["sid"], salt, lines, values, evals, time.time() - t0
+    return lines, values
 
 
-def eval_theory_scenario(job):
-    sc, salt, _ = job
-    t0 = time.time()
+def eval_theory_scenario(sc):
     fn = impl()["stats"].misorientations_random
     tmax = int(sc["theta_max"])
     out = {}
@@ -175,20 +190,37 @@ def eval_theory_scenario(job):
     line = dict(ev="theory", system=sc["system"], exc=exc, finite=fin,
                 int_fine_e6=cap(abs(out["fine"] - 1.0) * 1e6) if fin else 0,
                 int_coarse_e6=cap(abs(out["coarse"] - 1.0) * 1e6) if fin else 0)
-    return sc["sid"], salt, [line], out, 2, time.time() - t0
+    return line, out
 
 
-def eval_job(job):
-    return eval_theory_scenario(job) if job[0]["kind"] == "theory" else eval_index_scenario(job)
-
-
-def run_jobs(jobs, workers):
-    """Evaluate scenario jobs in forked worker processes (numba code is compiled before forking)."""
-    jobs = sorted(jobs, key=lambda j: -(j[0].get("n", 1) ** 2) * (1 + len(j[0].get("relations", ()))) * j[0].get("group_order", 1) ** 2)
+def run_scenarios(scens, workers, salts=(0,), only_base=False):
+    """Evaluate scenario classes, one real-function call per job, in forked worker processes (the numba code
+    is compiled before forking).  Returns {(sid, salt): (lines, values, seconds)}."""
+    jobs = []
+    for sc in scens:
+        for salt in salts:
+            jobs += [(sc, salt, "theory")] if sc["kind"] == "theory" else index_units(sc, salt, only_base)
+    jobs.sort(key=lambda j: -(j[0].get("n", 1) ** 2) * j[0].get("group_order", 1) ** 2)  # expensive first
     if workers <= 1 or len(jobs) < 4:
-        return [eval_job(j) for j in jobs]
-    with mp.get_context("fork").Pool(min(workers, len(jobs))) as p:
-        return list(p.imap_unordered(eval_job, jobs, chunksize=1))
+        done = [eval_unit(j) for j in jobs]
+    else:
+        with mp.get_context("fork").Pool(min(workers, len(jobs))) as p:
+            done = list(p.imap_unordered(eval_unit, jobs, chunksize=1))
+    got, secs = {}, {}
+    for sid, salt, key, a, b, t in done:
+        got.setdefault((sid, salt), {})[key] = (a, b)
+        secs[(sid, salt)] = max(secs.get((sid, salt), 0.0), t)
+    out = {}
+    for sc in scens:
+        for salt in salts:
+            k = (sc["sid"], salt)
+            if sc["kind"] == "theory":
+                line, values = got[k]["theory"]
+                out[k] = ([line], values, secs[k])
+            else:
+                lines, values = assemble(sc, got[k], only_base)
+                out[k] = (lines, values, secs[k])
+    return out
 
 
 # ----------------------------------------------------------------------------- trace validation
@@ -585,8 +617,7 @@ def main(tier):
         real_pool_binding(chk, tier, d)
         t_pool = time.time()
         # ---- 4. scenarios (code -> spec)
-        results = {sid: (lines, values, secs) for sid, _, lines, values, _, secs in run_jobs([(s, 0, False) for s in scen], EVAL_WORKERS)}
-        by_sid = {s["sid"]: s for s in scen}
+        results = {sid: v for (sid, _), v in run_scenarios(scen, EVAL_WORKERS).items()}
         traces = [results[s["sid"]][0] for s in scen]
         for s in scen:
             lines, values, _ = results[s["sid"]]
@@ -679,37 +710,55 @@ def main(tier):
                         continue
                     candidate(sy, clause, severity(clause, ln, s), f"{clause}: {describe(s, ln, values)}",
                               dict(kind=s["kind"], scenario=s, salt=0, clause=clause, line=ln, values=values))
-        # a sampling-bound excursion is reported only when two fresh seeds of the same class show it too;
-        # per system the excursion with the most grains (the most decisive one) is the one re-run
+        # a sampling-bound excursion is reported only when two fresh seeds of the same class show it too.
+        # Per system the largest affordable excursion (level full / reduced) is re-run first; only if that one is
+        # not confirmed (marginal at that size) the minimal-level one (n = 2000) is re-run.
         if uniform_excursions:
-            chosen = {}
+            by_system = {}
             for tid, s, ln in uniform_excursions:
-                if s["system"] not in chosen or (s["n"], -s["rep"]) > (chosen[s["system"]][1]["n"], -chosen[s["system"]][1]["rep"]):
-                    chosen[s["system"]] = (tid, s, ln)
-            chk.cov["uniform_bound_excursions"] = dict(total=len(uniform_excursions), re_run_on_fresh_seeds=len(chosen))
-            jobs = [(s, salt, True) for _, s, _ in chosen.values() for salt in (1, 2)]
-            conf_traces, conf_meta = [], []
-            for sid, salt, lines, values, _, _ in sorted(run_jobs(jobs, EVAL_WORKERS), key=lambda r: (r[0], r[1])):
-                conf_traces.append(lines)
-                conf_meta.append((sid, salt, values["base"]))
-            crej, _, cres = judge(conf_traces, d, "confirm", timeout=900)
-            chk.add_tlc("MIndexTrace(confirmation)", cres, f"{len(conf_traces)} fresh-seed re-runs of {len(chosen)} uniform scenarios above the sampling bound")
-            confirmed = {}
-            for t, _, clause in crej:
-                if clause.startswith(TRACE_DEFECT):
-                    raise MachineryError(f"recorder defect in confirmation run: {clause}")
-                if clause == "uniform-near-0":
-                    confirmed.setdefault(conf_meta[t][0], set()).add(conf_meta[t][1])
-            for tid, s, ln in chosen.values():
-                lines, values, _ = results[s["sid"]]
-                again = {salt: v for sid, salt, v in conf_meta if sid == s["sid"]}
-                if len(confirmed.get(s["sid"], ())) == 2:
-                    judged(s["system"], "uniform-near-0", True)
-                    candidate(s["system"], "uniform-near-0", ln["m_e6"],
-                              f"uniform-near-0: {describe(s, ln, values)}; fresh seeds give {again} - all above the 6-sigma sampling bound for n={s['n']}",
-                              dict(kind="index", scenario=s, salt=0, clause="uniform-near-0", line=ln, values=values, fresh_seeds=again))
-                else:
-                    chk.skip("uniform-bound-excursion-not-confirmed-on-fresh-seeds")
+                by_system.setdefault(s["system"], []).append((tid, s, ln))
+            rounds = [{}, {}]
+            for sy, exs in by_system.items():
+                cheap = [e for e in exs if e[1]["level"] != "minimal"]
+                dear = [e for e in exs if e[1]["level"] == "minimal"]
+                pick = lambda es: max(es, key=lambda e: (e[1]["n"], -e[1]["rep"]))  # noqa: E731
+                if cheap:
+                    rounds[0][sy] = pick(cheap)
+                if dear:
+                    rounds[1 if cheap else 0][sy] = pick(dear)
+            reported, n_rerun = set(), 0
+            for rnd, chosen in enumerate(rounds):
+                chosen = {sy: e for sy, e in chosen.items() if sy not in reported}
+                if not chosen:
+                    continue
+                conf_traces, conf_meta = [], []
+                fresh = run_scenarios([s for _, s, _ in chosen.values()], EVAL_WORKERS, salts=(1, 2), only_base=True)
+                for _, s, _ in chosen.values():
+                    for salt in (1, 2):
+                        lines, values, _ = fresh[(s["sid"], salt)]
+                        conf_traces.append(lines)
+                        conf_meta.append((s["sid"], salt, values["base"]))
+                n_rerun += len(chosen)
+                crej, _, cres = judge(conf_traces, d, f"confirm{rnd}", timeout=900)
+                chk.add_tlc(f"MIndexTrace(confirmation {rnd + 1})", cres, f"{len(conf_traces)} fresh-seed re-runs of {len(chosen)} uniform scenarios above the sampling bound")
+                confirmed = {}
+                for t, _, clause in crej:
+                    if clause.startswith(TRACE_DEFECT):
+                        raise MachineryError(f"recorder defect in confirmation run: {clause}")
+                    if clause == "uniform-near-0":
+                        confirmed.setdefault(conf_meta[t][0], set()).add(conf_meta[t][1])
+                for sy, (tid, s, ln) in chosen.items():
+                    lines, values, _ = results[s["sid"]]
+                    again = {salt: v for sid, salt, v in conf_meta if sid == s["sid"]}
+                    if len(confirmed.get(s["sid"], ())) == 2:
+                        reported.add(sy)
+                        judged(sy, "uniform-near-0", True)
+                        candidate(sy, "uniform-near-0", ln["m_e6"],
+                                  f"uniform-near-0: {describe(s, ln, values)}; fresh seeds give {again} - all above the 6-sigma sampling bound for n={s['n']}",
+                                  dict(kind="index", scenario=s, salt=0, clause="uniform-near-0", line=ln, values=values, fresh_seeds=again))
+                    else:
+                        chk.skip("uniform-bound-excursion-not-confirmed-on-fresh-seeds")
+            chk.cov["uniform_bound_excursions"] = dict(total=len(uniform_excursions), re_run_on_fresh_seeds=n_rerun, systems_reported=sorted(reported))
         for key in sorted(cands):  # the worst example of every (system, clause)
             _, what, rep = cands[key]
             chk.violation(dict(system=key[0], clause=key[1]), what, rep)
@@ -754,7 +803,8 @@ def replay(obj):
     impl()
     if r.get("kind") in ("index", "theory"):
         sc = r["scenario"]
-        _, _, lines, values, _, _ = eval_job((sc, r.get("salt", 0), False))
+        sc = dict(sc, sid=0)
+        lines, values, _ = run_scenarios([sc], 1, salts=(r.get("salt", 0),))[(0, r.get("salt", 0))]
         with scratch() as d:
             rejects, skips, _ = judge([lines], d, "replay")
         print(json.dumps(dict(lines=lines, values=values), default=str)[:3000])
